@@ -37,10 +37,14 @@ def tla_to_py(text: str):
     return json.loads(_TOK.sub(_tok, text))
 
 
+def laid_out(block: str) -> bool:
+    return "\n/\\ ph = 1\n" in block or block.rstrip().endswith("/\\ ph = 1")
+
+
 def _parse_block(block: str):
     i = block.find("/\\ out = ")
-    j = block.rfind("/\\ ph = ")
-    if i < 0 or j < 0 or block[j + 8:].strip() != "1":
+    j = block.find("\n/\\ ph = ", i)
+    if i < 0 or j < 0 or not laid_out(block):
         return None
     return tla_to_py(block[i + 9:j])
 
